@@ -227,3 +227,20 @@ CHECKS["C08"] = dict(
         P("rand", "det", "TestC08Rand", dict(checks=320, shards=8, timeout=900), dict(checks=50000, shards=16, timeout=3400), rewrite=_E4_DIRS),
     ],
 )
+
+CHECKS["C12"] = dict(
+    level="exploration",
+    rule=("part 'enum': 8 catalogue programs (Create, a fixed sequence of Write sizes, Close: 'abc,empty,def', no write at all, empty write first/last/only, buffer-size writes 2048/1/32768/0/2049, storing fails with no space at byte 1 / after the first chunk) - default schedule plus EVERY single forced preemption between the writer and the asynchronous storing goroutine. "
+          "part 'rand': rapid-generated write-size sequences (0-12 writes from {0,1,2047,2048,2049,32767,32768,32769,0..5000}), optional injected store failure, optional second client (another Create on the same key, or a reader) x generated schedules. "
+          "Oracle: Close returns (a parked Close with nothing runnable is a deadlock verdict, never a time-out); nil => a later Get yields exactly the concatenation (the write linearizes between Create and Close); error => the key is unchanged; the gRPC variant of the size sequences is covered sequentially by C11's generator. "
+          "parts 'rwenum'/'rwrand': the asynchronous read-writer alone, wired exactly as pkg/inline/db/create.go wires it (storing goroutine reading with a 32 KiB buffer, SetError on failure), no database: ALL schedules with <= 2 (quick) / <= 3 (thorough) forced preemptions of 9 write-size programs, plus rapid-generated programs x schedules; oracle: Close returns, nil => received bytes == concatenation, store failure => error of that class. "
+          "non-trivial = the sequence contains an empty write or the schedule forces >= 1 preemption."),
+    assumptions=_E4_ASSUME,
+    parts=[
+        P("enum", "det", "TestC12Enum", dict(checks=1, shards=8, split=False, timeout=900), dict(checks=1, shards=16, split=False, timeout=3000), rapid=False, rewrite=_E4_DIRS),
+        P("rand", "det", "TestC12Rand", dict(checks=240, shards=8, timeout=900), dict(checks=20000, shards=16, timeout=3400), rewrite=_E4_DIRS),
+        P("rwenum", "det", "TestC12RWEnum", dict(checks=1, shards=8, split=False, timeout=900, env={"VERIF_RW_BOUND": "2"}),
+          dict(checks=1, shards=16, split=False, timeout=3400, env={"VERIF_RW_BOUND": "3"}), rapid=False, rewrite=_E4_DIRS),
+        P("rwrand", "det", "TestC12RWRand", dict(checks=4000, shards=8, timeout=900), dict(checks=400000, shards=16, timeout=3400), rewrite=_E4_DIRS),
+    ],
+)
